@@ -31,6 +31,7 @@ def check(ctx):
     ty = types(a)
     nw = 0
     sites = set()
+    kinds_written = set()
     for cls in a.protos:
         cat = catalogue(a, cls)
         eng = cat.eng
@@ -45,6 +46,7 @@ def check(ctx):
                 sites.add((e.file, e.line))
                 how, obj = written_object(e.a["data"])
                 cl = {x.split(".")[-1] for x in ty.class_of(obj, eng, timer_func=tr.entry.func.qual if tr.kind == "TIMER" else None)} if obj is not None else set()
+                kinds_written.update(cl)
                 ok = how in ("encres", "encoded") and bool(cl) and cl <= C2S
                 ctx.ob("W1", "%s write of one whole client packet (%s in %s)" % (cq, short(e.func), tr.label()), ok, where=where(e),
                        function=e.func, construct="%s/write-shape" % e.func,
@@ -78,7 +80,7 @@ def check(ctx):
                         any(x.kind == "CANCEL" and hd_loc(a, cls, x, tr) == ("ping", "timer") for x in tr.events)
                     ok4 = not writes_there and timers_cancelled
                     ctx.ob("W4", "%s nothing can be written after the DISCONNECT" % cq, ok4, where=where(e), function=e.func,
-                           construct="%s/phase=CLOSING" % e.func,
+                           construct="after-disconnect/phase=CLOSING/%s" % tr.label(),
                            msg="after disconnect() the state is still %s (%d writing operations/packets honoured there) and the retry and "
                                "keepalive timers keep running until the transport reports the loss: PUBLISH/PINGREQ/... can follow the "
                                "DISCONNECT" % (new_slot, len(writes_there)), trigger=tr.label())
@@ -133,7 +135,10 @@ def check(ctx):
                            construct="%s/encode-broker-only/%s" % (e.func, e.a["cls"].split(".")[-1]), msg="%s encoded in %s" % (e.a["cls"], tr.label()))
     ctx.count("write_events", nw)
     ctx.count("write_sites", len(sites))
-    ctx.floor("transport.write sites", len(sites), 3)
+    # (the number of places that call transport.write is the code's business - one shared helper is as good as nine places; what must have
+    # been seen is the writing of every kind of packet a client sends)
+    ctx.count("packet_kinds_written", len(kinds_written & C2S))
+    ctx.floor("kinds of client packets seen written", len(kinds_written & C2S), 9)
 
 
 def hd_loc(a, cls, x, tr):
